@@ -50,6 +50,7 @@ class VLoop(asyncio.SelectorEventLoop):
         self.leaked = None
         self.D = 0
         self.reported = []
+        self.event_latency = False
 
     def time(self):
         return self.now
@@ -68,12 +69,14 @@ class VLoop(asyncio.SelectorEventLoop):
                 live = sorted(h for h in self._scheduled if not h._cancelled)
                 nxt = live[0] if live else None
                 opts = []
-                if nxt is not None:
-                    opts.append(('timer', None))
                 for i in range(len(self.pending)):
                     opts.append(('reply', i))
-                for i in range(len(self.events)):
-                    opts.append(('event', i))
+                if not (self.pending and not self.latency):
+                    # with instant replies (no symbolic latency) a pending reply arrives before anything that takes time
+                    if nxt is not None:
+                        opts.append(('timer', None))
+                    for i in range(len(self.events)):
+                        opts.append(('event', i))
                 if not opts or (nxt is None and not self.pending):
                     self.active = False
                     raise Deadlock()
@@ -86,10 +89,10 @@ class VLoop(asyncio.SelectorEventLoop):
                     self.deliveries.append(('timer', self.now))
                 else:
                     lat = 0
-                    if self.latency:
+                    if self.latency or (self.event_latency and kind == 'event'):
                         lat = self._fresh('lat', 0)
                     new_now = self.now + lat
-                    if nxt is not None and self.latency:
+                    if nxt is not None and (self.latency or (self.event_latency and kind == 'event')):
                         # the reply/event arrives before the next timer fires (the other order is the other choice)
                         self.eng.assume(new_now <= nxt._when)
                     self.now = new_now
@@ -164,6 +167,7 @@ def one_run(eng, cfg, strict, tag=''):
     sims = ['A', 'B'][:n]
     loop = VLoop(eng, late=cfg.get('late', False), latency=cfg.get('latency', False), maxlate=feff / 4)
     loop._clock_resolution = frac(Fraction(1, 10**9))
+    loop.event_latency = cfg.get('event_latency', False)
     log = []
     steps = []
     ev_log = []
@@ -303,7 +307,9 @@ def events(cfg):
         stepped = [(s, t, c) for s, t, c in r['steps'] if s == 'A']
         future = (et > ev['progress']) if True else None
         # only events that lie in the future of the simulator at the injection instant are specified
-        is_future = bool(et > ev['last_step']) and bool(et >= ev['progress'])
+        import math
+        tick = math.ceil(ev['clock'] / f)     # the tick real time is in at the injection instant
+        is_future = bool(et > ev['last_step']) and bool(et >= ev['progress']) and bool(et >= tick)
         if not is_future:
             return ('pastevent:' + str(r['outcome']), {'nontrivial': False})
         if bool(et < ev['until']):
@@ -315,6 +321,12 @@ def events(cfg):
             eng.check(texc is None, 'C17.event', f'set_event({et}) raised {texc!r}: {desc}', {'fp': fp})
             hit = [1 for s, t, c in stepped if bool(t == et)]
             eng.check(bool(hit), 'C17.event', lambda: f'set_event({et}) at clock {ev["clock"]} (progress {ev["progress"]}) caused no step at {et}; steps {[(str(t)) for s, t, c in stepped]}: {desc}', {'fp': fp})
+            if not cfg.get('latency') and not cfg.get('late'):
+                # replies are instant and timers exact (only the instant of the external event is arbitrary): the event step
+                # must not be reported too slow, i.e. it is taken when the event arrives or at the next poll, never a period late
+                slow = [m for m in r['warns'] if 'too slow' in m]
+                eng.check(not slow, 'C17.event_tooslow', lambda: f'set_event({et}) at clock {ev["clock"]}: instantly answering simulator reported too slow: {slow[:1]}; steps {[(str(t), str(c)) for s, t, c in stepped]}: {desc}',
+                          {'fp': fp + ['tooslow']})
         else:
             ignored = [m for m in r['warns'] if 'will be ignored' in m]
             eng.check(bool(ignored), 'C17.event_late', f'set_event({et}) with until={ev["until"]} gave no warning: {desc}', {'fp': fp})
@@ -349,6 +361,7 @@ def jobs(tier):
             cfgb = {'f': '1', 'res': '1', 'grouped': grouped, 'n': 1, 'until': 4, 'K': 6, 'typ': typ, 'events': 1, 'self_steps': typ != 'event-based',
                     'sync': []}
             out.append(('events', dict(cfgb)))
+            out.append(('events', dict(cfgb, event_latency=True)))
             out.append(('events', dict(cfgb, latency=True)))
             if not q:
                 out.append(('events', dict(cfgb, f='1/2', latency=True)))
